@@ -226,6 +226,37 @@ theorem eq_iff_sem_same_vars (p q : Poly R) (hp : WF p) (hq : WF q) (hv : p.vars
     polyEq p q = true ↔ sem p = sem q :=
   ⟨eq_sound p q hp hq, eq_complete_same_vars p q hp hq hv⟩
 
+/-! ### commutativity at object level (same variable set, `__eq__`) -/
+
+/-- a strictly increasing list is determined by its members -/
+theorem sorted_ext {s t : List Var} (hs : s.Pairwise (· < ·)) (ht : t.Pairwise (· < ·))
+    (h : ∀ x, x ∈ s ↔ x ∈ t) : s = t := by
+  have hp : s.Perm t := (List.perm_ext_iff_of_nodup (hs.imp (fun h => Nat.ne_of_lt h))
+    (ht.imp (fun h => Nat.ne_of_lt h))).mpr h
+  exact hp.eq_of_pairwise (fun a b _ _ h1 h2 => absurd h1 (Nat.lt_asymm h2)) hs ht
+
+/-- the union of the variable sets does not depend on the operand order -/
+theorem merge_comm (s1 s2 : List Var) (h1 : s1.Pairwise (· < ·)) (h2 : s2.Pairwise (· < ·)) :
+    merge s1 s2 = merge s2 s1 :=
+  sorted_ext (sorted_merge s1 s2 h1 h2) (sorted_merge s2 s1 h2 h1)
+    (fun x => by rw [mem_merge, mem_merge, or_comm])
+
+/-- `a + b` and `b + a` are `__eq__` objects (same variable set, `polyEq` true) -/
+theorem add_comm_eq (a b : Poly R) (ha : WF a) (hb : WF b) :
+    ∃ r s, addPoly a b = .ok r ∧ addPoly b a = .ok s ∧ r.vars = s.vars ∧ polyEq r s = true := by
+  obtain ⟨r, hr, wr, vr, sr⟩ := add_sem a b ha hb
+  obtain ⟨s, hs, ws, vs, ss⟩ := add_sem b a hb ha
+  have hv : r.vars = s.vars := by rw [vr, vs, merge_comm _ _ ha.sorted hb.sorted]
+  exact ⟨r, s, hr, hs, hv, eq_complete_same_vars r s wr ws hv (by rw [sr, ss, add_comm])⟩
+
+/-- `a * b` and `b * a` are `__eq__` objects -/
+theorem mul_comm_eq [NoZeroDivisors R] (a b : Poly R) (ha : WF a) (hb : WF b) :
+    ∃ r s, mulPoly a b = .ok r ∧ mulPoly b a = .ok s ∧ r.vars = s.vars ∧ polyEq r s = true := by
+  obtain ⟨r, hr, wr, vr, sr⟩ := mul_sem a b ha hb
+  obtain ⟨s, hs, ws, vs, ss⟩ := mul_sem b a hb ha
+  have hv : r.vars = s.vars := by rw [vr, vs, merge_comm _ _ ha.sorted hb.sorted]
+  exact ⟨r, s, hr, hs, hv, eq_complete_same_vars r s wr ws hv (by rw [sr, ss, mul_comm])⟩
+
 /-- Two constants are `__eq__` whatever their variable sets (the case behind defect D2: equal
     objects whose `__hash__` mixes in the variable names). -/
 theorem eq_const_any_vars (v w : List Var) (c : R) :
